@@ -15,7 +15,7 @@ ANCHORS = ['mpilot/libraries/eems/fuzzy.py:FuzzyOr.execute', 'mpilot/libraries/e
 LEVEL = "exploration"
 RULE = ("operator x parameter x input-order x layout cases; n<=3 inputs enumerate the complete 18^n value/missing lattice as "
         "array cells (rank 2-3 shapes also with inputs in Fortran-order / strided / negative-stride memory), n=4,5 sample cell tuples; a case is distinct by (operator, n, params, layout rank, order class)")
-REQUIRED_COUNTERS = ["category_producer_cases", "direct_execute_calls", "command_object_input_calls", "ref_postconditions", "law_checks", "cells_compared", "repeated_field_cases", "mixed_dtype_cases", "saturated_field_cases", "memory_layout_cases", "plain_ndarray_cases", "large_rasters_checked", "real_producer_cases", "program_copies_checked"]
+REQUIRED_COUNTERS = ["operators_in_command_files", "other_case_spellings_of_the_choice", "inherited_fuzziness_producer_cases", "category_producer_cases", "direct_execute_calls", "command_object_input_calls", "ref_postconditions", "law_checks", "cells_compared", "repeated_field_cases", "mixed_dtype_cases", "saturated_field_cases", "memory_layout_cases", "plain_ndarray_cases", "large_rasters_checked", "real_producer_cases", "program_copies_checked"]
 EXHAUSTIVE_NOTE = "complete {17 fuzzy values + missing}^n lattice for n = 1, 2, 3 in both tiers"
 ASSUMPTIONS = ["reference models in mpv/ref.py (exact rationals) are the EEMS definitions as stated in the property",
                "numpy masked-array primitives are trusted", "FuzzyXOr with one input, k outside 1..n and zero weight sums are don't-care"]
@@ -342,6 +342,23 @@ def run_case(ctx, case):
         ctx.fail("%s:%s:%s:%s" % (op, kind, nclass, rk),
                  {"cell_inputs": [c[i] for c in ocols] if i is not None else None, "got": g, "want": w, "params": oparams, "shape": list(shape)}, small)
         return
+    if op == "FuzzySelectedUnion" and not refs and (total + n) % 2 == 0:
+        # the choice written in another letter case: refused, or taken for what it says - never for the opposite
+        word = params["TruestOrFalsest"]
+        alt = dict(call_params, TruestOrFalsest=[word.lower(), word.upper(), word.swapcase()][(total + n) % 3])
+        aout = _call(op, inputs, alt, refs)
+        ctx.count("other_case_spellings_of_the_choice")
+        if aout.ok:
+            bad = ref.compare(aout.value, want, scale=scale, rel=1e-6 if (dtypes and "float32" in dtypes) else 1e-12)
+            if bad:
+                ctx.fail("FuzzySelectedUnion:%s:TruestOrFalsest-written-in-another-case-is-taken-for-something-else" % bad[0], {"written": alt["TruestOrFalsest"], "cell": bad[1], "got": bad[2], "want": bad[3], "k": params["NumberToConsider"], "n": n})
+                return
+        elif aout.err != "InvalidTruestOrFalsest":
+            ctx.fail("FuzzySelectedUnion:other-case-spelling-raises-%s" % (aout.inner() or aout.err), {"written": alt["TruestOrFalsest"]})
+            return
+    if not refs and not dtypes and not mem and not plain and len(shape) == 1 and total <= 400 and (total + 2 * n + len(op)) % 4 == 0:
+        if _run_text(ctx, op, n, oparams, ocols, want, scale) is False:
+            return
     if not refs and (total + n + len(op)) % 3 == 0:
         # the operator driven the way the repository's tests drive it (execute() on stand-in producers), the fields given as a
         # tuple / an iterator / a generator: the same result
@@ -383,6 +400,50 @@ def run_case(ctx, case):
         _reevaluate(ctx, op, inputs, oparams, refs, res, rk)
 
 
+V2NAME = {"FuzzyOr": "OR", "FuzzyAnd": "AND", "FuzzyNot": "NOT", "FuzzyUnion": "UNION", "FuzzyWeightedUnion": "WTDUNION", "FuzzySelectedUnion": "SELECTEDUNION", "FuzzyXOr": "XOR"}
+_text_calls = {"n": 0}
+
+
+def _run_text(ctx, op, n, params, cols, want, scale):
+    """The operator in a command file over fields read from a table: under its MPilot name, and under its EEMS 2.0 name both in
+    the 2.0 layout and with a result name in front."""
+    import os
+    from mpilot.program import Program
+    _text_calls["n"] += 1
+    d = ctx.scratch()
+    with open(os.path.join(d, "f.csv"), "w") as f:
+        f.write(",".join("c%d" % k for k in range(n)) + "\n")
+        for r in range(len(cols[0])):
+            f.write(",".join("-9999" if c[r] is None else repr(float(c[r])) for c in cols) + "\n")
+    lines = []
+    for k in range(n):
+        lines.append('R%d = EEMSRead(InFileName = "f.csv", InFieldName = c%d, MissingVal = -9999)' % (k, k))
+        lines.append("F%d = CvtToFuzzy(InFieldName = R%d, TrueThreshold = 1, FalseThreshold = -1)" % (k, k))
+    args = ["InFieldName = F0"] if op == "FuzzyNot" else ["InFieldNames = [%s]" % ", ".join("F%d" % k for k in range(n))]
+    args += ["%s = %s" % (a_, "[%s]" % ", ".join(repr(x) for x in v_) if isinstance(v_, list) else (v_ if isinstance(v_, str) else repr(v_))) for a_, v_ in params.items()]
+    style = _text_calls["n"] % 3
+    if style == 0:
+        lines.append("Res = %s(%s)" % (op, ", ".join(args)))
+    elif style == 1:
+        lines.append("Res = %s(%s)" % (V2NAME[op], ", ".join(args)))                       # the 2.0 name with a result name in front
+    else:
+        lines.append("%s(%s, NewFieldName = Res)" % (V2NAME[op], ", ".join(args)))          # the 2.0 layout
+    text = "\n".join(lines)
+    ctx.count("operators_in_command_files")
+    try:
+        p_ = Program.from_source(text, working_dir=d)
+        p_.run()
+        res = p_.commands["Res"].result
+    except Exception as e:
+        ctx.fail("%s:in-a-command-file:raises-%s:%s" % (op, type(e).__name__, ["mpilot-name", "eems2-name-with-a-result-name", "eems2-layout"][style]), {"error": str(e)[:200], "line": lines[-1]})
+        return False
+    bad = ref.compare(res, want, scale=scale, rel=1e-12)
+    if bad:
+        ctx.fail("%s:%s:in-a-command-file" % (op, bad[0]), {"cell": bad[1], "got": bad[2], "want": bad[3], "line": lines[-1]})
+        return False
+    return True
+
+
 def _run_real(ctx, case, op, n, params, cols, inputs, shape):
     """The operator over results of real commands: each field is FuzzyNot of a stand-in holding its negation (exact). Optionally
     the whole (not yet evaluated) program is deep-copied, the stand-ins of the copy are replaced by other fields, and the copy
@@ -394,14 +455,24 @@ def _run_real(ctx, case, op, n, params, cols, inputs, shape):
     prog = arr.new_program(arr.NC_LIBS if write else arr.CSV_LIBS, working_dir=d)
     ctx.count("real_producer_cases")
     cat = bool(case.get("cat_producers"))
+    inherit = not cat and not case.get("in_copy") and case["rseed"] % 5 == 4
     if cat:
         write = False
         ctx.count("category_producer_cases")
+    if inherit:
+        # the fields are made by a user's command class that inherits its fuzziness from the built-in class it extends
+        write = False
+        prog = arr.new_program(arr.CSV_LIBS + ("usercmds",))
+        ctx.count("inherited_fuzziness_producer_cases")
     for k, a in enumerate(inputs):
         if cat:
             # the field is made by CvtToFuzzyCat from category codes, its fuzzy values written as whole numbers
             arr.standin(prog, "S%d" % k, numpy.ma.array(numpy.where(numpy.ma.getdata(a) > 0, 7, 3).astype("int64"), mask=numpy.ma.getmaskarray(a).copy()), fuzzy=False)
             prog.add_command(prog.find_command_class("CvtToFuzzyCat"), "P%d" % k, {"InFieldName": "S%d" % k, "RawValues": [7, 3], "FuzzyValues": [1, 0], "DefaultFuzzyValue": 0})
+            continue
+        if inherit:
+            arr.standin(prog, "S%d" % k, numpy.ma.array(numpy.ma.getdata(a).copy(), mask=numpy.ma.getmaskarray(a).copy()), fuzzy=False)
+            prog.add_command(prog.find_command_class("MyConv"), "P%d" % k, {"InFieldName": "S%d" % k, "TrueThreshold": 1, "FalseThreshold": -1})
             continue
         arr.standin(prog, "S%d" % k, -a, fuzzy=True)
         prog.add_command(prog.find_command_class("FuzzyNot"), "P%d" % k, {"InFieldName": "S%d" % k})
@@ -419,7 +490,7 @@ def _run_real(ctx, case, op, n, params, cols, inputs, shape):
             if bad:
                 ctx.fail("FuzzyNot:%s:field-made-by-CvtToFuzzyCat-from-whole-numbers" % bad[0], {"cell": bad[1], "got": bad[2], "want": bad[3], "dtype": str(prog.commands["P%d" % k]._result.dtype)})
                 return
-    if not cat and not case.get("in_copy") and not write and case["rseed"] % 3 == 1:
+    if not cat and not inherit and not case.get("in_copy") and not write and case["rseed"] % 3 == 1:
         # before anything is evaluated the caller swaps other source fields in under the same names: the program computes from
         # the fields it holds when it is run
         ctx.count("source_fields_replaced_before_the_run")
